@@ -8,7 +8,7 @@ use crate::vals::{biased_value, enc, num_elems, st_bits, st_mask};
 use ciphercore_base::custom_ops::{CustomOperation, Not, Or};
 use ciphercore_base::ops::long_division::LongDivision;
 use ciphercore_base::data_types::{
-    array_type, scalar_type, ScalarType, Type, BIT, INT128, INT16, INT32, INT64, INT8, UINT128, UINT16, UINT32, UINT64, UINT8,
+    array_type, named_tuple_type, scalar_type, tuple_type, vector_type, ScalarType, Type, BIT, INT128, INT16, INT32, INT64, INT8, UINT128, UINT16, UINT32, UINT64, UINT8,
 };
 use ciphercore_base::data_values::Value;
 use ciphercore_base::graphs::{create_context, Context, Graph, GraphAnnotation, Node, Operation, SliceElement};
@@ -31,6 +31,8 @@ pub struct GenCfg {
     /// restrict scalar types (indices into ALL_ST); empty = weighted default
     pub sts: Vec<usize>,
     pub allow_helpers: bool,
+    /// some program inputs are tuples / vectors / named tuples of arrays (their leaves are exposed by getters)
+    pub composite_inputs: bool,
 }
 
 pub const FAMILIES: [&str; 10] = ["arith", "mixed", "dot", "reduce", "shape", "conv", "tuple", "custom", "const", "call"];
@@ -64,6 +66,7 @@ impl GenCfg {
             fam,
             sts,
             allow_helpers: rng.chance(1, 3),
+            composite_inputs: false,
         }
     }
 }
@@ -137,6 +140,7 @@ fn const_of(t: &Type, rng: &mut Rng) -> Operation {
     match rng.below(4) {
         0 => Operation::Zeros(t.clone()),
         1 => Operation::Ones(t.clone()),
+        _ if !matches!(t, Type::Array(_, _) | Type::Scalar(_)) => Operation::Constant(t.clone(), crate::vals::random_value(t, rng)),
         _ => {
             let st = t.get_scalar_type();
             let n = num_elems(t);
@@ -645,10 +649,73 @@ pub fn gen_input_types(cfg: &GenCfg, rng: &mut Rng) -> Vec<Type> {
     ts
 }
 
+/// Replaces one or two of the (array-typed) program inputs by a tuple, vector, named tuple or a nesting of
+/// these: the compiler shares, forwards and reveals such inputs leaf by leaf.
+fn wrap_composite(ts: &mut Vec<Type>, cfg: &GenCfg, rng: &mut Rng) {
+    let k = 1 + rng.usize_below(2.min(ts.len()));
+    for _ in 0..k {
+        let i = rng.usize_below(ts.len());
+        if !matches!(ts[i], Type::Array(_, _) | Type::Scalar(_)) {
+            continue;
+        }
+        let base = ts[i].clone();
+        let other = if rng.chance(1, 2) { base.clone() } else { mk_type(&pick_shape(cfg.max_elems.min(8), rng), pick_st(cfg, rng)) };
+        ts[i] = match rng.below(6) {
+            0 => tuple_type(vec![base, other]),
+            1 => vector_type(1 + rng.below(3), base),
+            2 => named_tuple_type(vec![("a".to_owned(), base), ("b".to_owned(), other)]),
+            3 => tuple_type(vec![base.clone(), vector_type(2, other), base]),
+            4 => vector_type(2, tuple_type(vec![base, other])),
+            _ => named_tuple_type(vec![("k".to_owned(), tuple_type(vec![other, base.clone()])), ("v".to_owned(), base)]),
+        };
+    }
+}
+
+/// Getter steps that bring the leaves of composite inputs into the pool (three times out of four per component).
+fn expose_leaves(pool: &mut Pool, rng: &mut Rng, graphs: &[Graph]) {
+    let mut i = 0;
+    while i < pool.types.len() && pool.types.len() < 40 {
+        let t = pool.types[i].clone();
+        match &t {
+            Type::Tuple(v) => {
+                for j in 0..v.len() {
+                    if rng.chance(3, 4) {
+                        pool.try_add(Operation::TupleGet(j as u64), vec![i], vec![], graphs);
+                    }
+                }
+            }
+            Type::NamedTuple(v) => {
+                for (name, _) in v.iter() {
+                    if rng.chance(3, 4) {
+                        pool.try_add(Operation::NamedTupleGet(name.clone()), vec![i], vec![], graphs);
+                    }
+                }
+            }
+            Type::Vector(n, _) => {
+                for j in 0..*n {
+                    if rng.chance(3, 4) {
+                        if let Some(c) = pool.try_add(Operation::Constant(scalar_type(UINT64), enc(&[j as u128], UINT64)), vec![], vec![], graphs) {
+                            pool.try_add(Operation::VectorGet, vec![i, c], vec![], graphs);
+                        }
+                    }
+                }
+                if rng.chance(1, 3) {
+                    pool.try_add(Operation::VectorToArray, vec![i], vec![], graphs);
+                }
+            }
+            _ => {}
+        }
+        i += 1;
+    }
+}
+
 /// Generate a program. The result always builds (it was built while being generated).
 pub fn gen_prog(cfg: &GenCfg, rng: &mut Rng) -> Option<Prog> {
     let ctx = create_context().ok()?;
-    let in_types = gen_input_types(cfg, rng);
+    let mut in_types = gen_input_types(cfg, rng);
+    if cfg.composite_inputs {
+        wrap_composite(&mut in_types, cfg, rng);
+    }
     let mut graphs: Vec<Graph> = vec![];
     let mut gds: Vec<GraphD> = vec![];
     let mut sigs: Vec<HelperSig> = vec![];
@@ -666,6 +733,9 @@ pub fn gen_prog(cfg: &GenCfg, rng: &mut Rng) -> Option<Prog> {
     let mut pool = Pool::new(g.clone());
     for t in &in_types {
         pool.try_add(Operation::Input(t.clone()), vec![], vec![], &graphs)?;
+    }
+    if cfg.composite_inputs {
+        expose_leaves(&mut pool, rng, &graphs);
     }
     let mut fam = cfg.fam.clone();
     if sigs.is_empty() {
